@@ -62,6 +62,7 @@ def build_world(w, tab, io_lines, posval, ioval):
         del w.files[k]
     w.devs = {"/dev/null": 0x103}
     w.dirs.add("/v/dir")
+    w.deny = {}
     # decoys in the CALLER's current directory, named like the link targets that are not absolute
     # paths: whatever the caller's directory holds, such descriptors are no regular files
     for t in sim_c14.TARGETS.values():
@@ -78,6 +79,13 @@ def build_world(w, tab, io_lines, posval, ioval):
                 w.files[path_of(d["file"], dl, False)] = b"data"
             if dl in ("literal", "both"):
                 w.files[path_of(d["file"], dl, True)] = b"data"
+            elif dl in ("stale", "gone") and (d["fd"] + d["file"]) % 3:
+                # nothing of the literal name: the look at it may fail in other ways than ENOENT (a
+                # parent replaced by a file, a name too long with the suffix, a symlink loop)
+                import errno as _e
+                w.deny[target] = (_e.ENOTDIR, _e.ENAMETOOLONG, _e.ELOOP)[(d["fd"] + d["file"]) % 3]
+                if dl == "gone":        # (a replaced parent directory fails both spellings alike)
+                    w.deny[path_of(d["file"], dl, False)] = w.deny[target]
         else:
             target = sim_c14.TARGETS[d["kind"]]
         p.fds[d["fd"]] = Fd(target, posval(d["pos"]), sim_c14.kernel_word(d["acc"], d["fl"]), d["kind"])
